@@ -18,7 +18,7 @@ type Op struct {
 	Call  string // Store | Load | Remove | List | LoadByNodeId
 	Kind  string // roots | nodeinfo | nodecreds | token
 	Id    string
-	Bytes []byte // marshaled message handed to Store
+	Bytes []byte // marshaled message handed to Store (or to Remove)
 	Err   string
 }
 
@@ -193,7 +193,10 @@ func (m *MemStore) Remove(ctx context.Context, msg nodeenrollment.MessageWithId)
 	m.mu.Lock()
 	defer m.mu.Unlock()
 	delete(m.data, kind+"/"+id)
-	m.log(Op{Call: "Remove", Kind: kind, Id: id})
+	// (the message handed to Remove is recorded too: it reaches the storage
+	// implementation just like one handed to Store)
+	rb, _ := proto.Marshal(msg)
+	m.log(Op{Call: "Remove", Kind: kind, Id: id, Bytes: rb})
 	return nil
 }
 
